@@ -468,4 +468,120 @@ theorem cutCore_linear_inside (z : Str) (n : Nat) (d : Bool) (e : Enzyme) (fr : 
       rw [if_pos (by omega)] at h
       exact hmain fr h
 
+/-! ### the scan reports its matches from left to right -/
+
+theorem findAllAux_ge (x : Str) (hx : x ≠ []) (cs : Str) (i hold : Nat) (m : Nat × Nat)
+    (h : m ∈ findAllAux x i hold cs) : i + hold ≤ m.1 := by
+  obtain ⟨a, b⟩ := m
+  induction cs generalizing i hold with
+  | nil => cases hold <;> simp [findAllAux, hx] at h
+  | cons c cs ih =>
+    cases hold with
+    | succ hold =>
+      rw [findAllAux] at h
+      have := ih _ _ h
+      simp only at this ⊢; omega
+    | zero =>
+      rw [findAllAux] at h
+      split at h
+      · rcases List.mem_cons.1 h with h | h
+        · have : a = i := by simpa using congrArg Prod.fst h
+          simp only; omega
+        · have := ih _ _ h
+          simp only at this ⊢; omega
+      · have := ih _ _ h
+        simp only at this ⊢; omega
+
+theorem findAllAux_sorted (x : Str) (hx : x ≠ []) : ∀ (cs : Str) (i hold : Nat),
+    (findAllAux x i hold cs).Pairwise (fun m m' => m.1 < m'.1) := by
+  intro cs
+  induction cs with
+  | nil => intro i hold; cases hold <;> simp [findAllAux, hx]
+  | cons c cs ih =>
+    intro i hold
+    cases hold with
+    | succ hold => rw [findAllAux]; exact ih _ _
+    | zero =>
+      rw [findAllAux]
+      split
+      · refine List.pairwise_cons.2 ⟨?_, ih _ _⟩
+        intro m hm
+        have := findAllAux_ge x hx cs (i + 1) (x.length - 1) m hm
+        simp only; omega
+      · exact ih _ _
+
+/-! ### the pairing loop on a linear part: the `break` drops only pairs that emit nothing -/
+
+theorem adjPairs_snd_mem {α : Type} : ∀ (L : List α) (p : α × α), p ∈ adjPairs L → p.1 ∈ L ∧ p.2 ∈ L := by
+  intro L
+  induction L with
+  | nil => intro p h; simp [adjPairs] at h
+  | cons a r ih =>
+    intro p h
+    cases r with
+    | nil => simp [adjPairs] at h
+    | cons b r =>
+      simp only [adjPairs, List.mem_cons] at h
+      rcases h with rfl | h
+      · simp
+      · have := ih p h
+        exact ⟨List.mem_cons_of_mem _ this.1, List.mem_cons_of_mem _ this.2⟩
+
+theorem filterMap_pieceOf_all_forward (z : Str) (L : List Overhang) (h : ∀ o ∈ L, o.forward = true) :
+    (adjPairs L).filterMap (pieceOf z) = [] := by
+  rw [List.filterMap_eq_nil_iff]
+  intro p hp
+  have := h p.2 (adjPairs_snd_mem L p hp).2
+  simp [pieceOf, this]
+
+theorem pairLoop_eq_lin (z : Str) (n : Nat) : ∀ O : List Overhang, O.Pairwise PosLe →
+    (∀ o ∈ O, o.position > (n : Int) → o.forward = true) →
+    (∀ p ∈ adjPairs O, p.1.forward = true → p.2.forward = false →
+      0 ≤ p.1.position ∧ p.1.position ≤ p.2.position ∧ p.2.position ≤ (z.length : Int)) →
+    pairLoop z n true O = some ((adjPairs O).filterMap (pieceOf z)) := by
+  intro O
+  induction O with
+  | nil => intro _ _ _; simp [pairLoop, adjPairs]
+  | cons cur rest ih =>
+    intro hs hbig hv
+    cases rest with
+    | nil => simp [pairLoop, adjPairs]
+    | cons next rest =>
+      have hs' := (List.pairwise_cons.1 hs).2
+      have hbig' : ∀ o ∈ next :: rest, o.position > (n : Int) → o.forward = true :=
+        fun o ho => hbig o (List.mem_cons_of_mem _ ho)
+      have hv' : ∀ p ∈ adjPairs (next :: rest), p.1.forward = true → p.2.forward = false →
+          0 ≤ p.1.position ∧ p.1.position ≤ p.2.position ∧ p.2.position ≤ (z.length : Int) := by
+        intro p hp; exact hv p (by simp [adjPairs, hp])
+      have ih' := ih hs' hbig' hv'
+      -- after a `break` nothing more would have been emitted
+      have htail : next.position > (n : Int) → (adjPairs (next :: rest)).filterMap (pieceOf z) = [] := by
+        intro hgt
+        apply filterMap_pieceOf_all_forward
+        intro o ho
+        apply hbig' o ho
+        rcases List.mem_cons.1 ho with rfl | ho
+        · exact hgt
+        · have : PosLe next o := (List.pairwise_cons.1 hs').1 o ho
+          unfold PosLe at this; omega
+      rw [pairLoop]
+      simp only [Bool.not_true, Bool.false_or]
+      by_cases hem : (cur.forward && !next.forward) = true
+      · have hf : cur.forward = true ∧ next.forward = false := by simpa using hem
+        have hvv := hv (cur, next) (by simp [adjPairs]) hf.1 hf.2
+        have hsl : goSlice z cur.position next.position =
+            some ((z.drop cur.position.toNat).take (next.position.toNat - cur.position.toNat)) := by
+          simp only [goSlice]; rw [if_pos hvv]
+        simp only [hem, if_true, hsl, Option.map_some]
+        by_cases hbr : next.position > (n : Int)
+        · simp [hbr, adjPairs, pieceOf, hem, htail hbr]
+        · simp only [hbr, if_false, ih', Option.map_some]
+          simp [adjPairs, pieceOf, hem]
+      · have hem' : (cur.forward && !next.forward) = false := by simpa using hem
+        simp only [hem']
+        by_cases hbr : next.position > (n : Int)
+        · simp [hbr, adjPairs, pieceOf, hem', htail hbr]
+        · simp only [hbr, if_false, ih', Option.map_some]
+          simp [adjPairs, pieceOf, hem']
+
 end PolyVerif.Digest
